@@ -1,17 +1,17 @@
 """Self-test of the analyser, not of the repository: every check must give the same verdict on the current tree and on copies of it
-rewritten, throughout, by one behaviour-preserving edit (tools/metamorph.py: 26 kinds).  A VIOLATION on a rewritten copy of a tree that
+rewritten, throughout, by one behaviour-preserving edit (tools/metamorph.py: 29 kinds).  A VIOLATION on a rewritten copy of a tree that
 passes is a rule judging a spelling; an ANALYSIS-ERROR is a form the analyser does not read yet.  Tool validation only - it is not
 part of any registered command, and the copies live in a temporary directory that is removed at the end.
 
 usage: python3-vt tools/metamorph_test.py [--validate] [--compose] [kind ...]
-       --compose adds one copy with 25 of the rewrites applied on top of each other
+       --compose adds one copy with 28 of the rewrites applied on top of each other
        --validate also runs the repository's test suite against every rewritten copy (executes code; expected: the pinned counts)"""
 import os, subprocess, sys, tempfile, shutil, pathlib, concurrent.futures as cf
 
 V = pathlib.Path(__file__).resolve().parents[1]
 KINDS = ["intarg", "matmul", "alias", "asarray", "early", "kwargs", "rename", "ifswap", "cmpflip", "floatin",
          "axispos", "axiskw", "range0", "methodform", "retvar", "argtmp", "ternary", "comp2loop", "npname", "wrapper",
-         "commute", "kwreorder", "lenshape", "noneform", "attrlocal", "importstyle"]
+         "commute", "kwreorder", "lenshape", "noneform", "attrlocal", "importstyle", "intuple", "notnone", "strconst"]
 PROPS = [f"C{i:02d}" for i in range(1, 21)]
 
 
